@@ -1,0 +1,8 @@
+//go:build !verif
+// +build !verif
+
+package api
+
+func verifBuildBegin(ctx *internalContext, build *buildInProgress) {}
+func verifBuildEnd(ctx *internalContext, build *buildInProgress)   {}
+func verifBuildJoin(ctx *internalContext, build *buildInProgress)  {}
